@@ -181,6 +181,12 @@ def _scan_items(src, lo_tok, hi_tok):
             kw = src.ttext(k)
             start_tok = pending_start if pending_start is not None else k
             attr_off = pending_attr_off if pending_attr_off is not None else src.toks[start_tok][1]
+            if kw == "const":
+                k2 = src.next_sig(k)
+                if k2 is not None and src.toks[k2][0] == "ident" and src.ttext(k2) in ("fn", "unsafe", "async", "extern"):
+                    # `const fn`: a modifier, not a const item
+                    if pending_start is None: pending_start = k
+                    k = k2; continue
             if kw in ("unsafe", "async", "extern") :
                 # modifier: keep scanning; treat `extern crate x;` as an item ending at ;
                 k2 = src.next_sig(k)
